@@ -35,6 +35,7 @@ type engSim struct {
 	b      *Built
 	out    <-chan search.PV
 	pvs    []pvRec
+	fills  []float64 // PV.Hash per reported iteration (the table's fill fraction when the iteration ended)
 	closed bool
 	before string
 	snap   sb.BoardSnap
@@ -62,6 +63,7 @@ func (e *engSim) read() {
 				return
 			}
 			e.pvs = append(e.pvs, recOf(pv))
+			e.fills = append(e.fills, pv.Hash)
 		default:
 			return
 		}
@@ -69,7 +71,16 @@ func (e *engSim) read() {
 }
 
 // SessionC18: several engines in one bubble, their gated searches interleaved by the seeded scheduler, vs. solo runs.
-func SessionC18(t *tape.Tape) *core.RunResult {
+func SessionC18(t *tape.Tape) *core.RunResult { return sessionEngines(t, false) }
+
+// SessionC17Engine is the same kind of session with the hash table always on and one Zobrist seed for
+// all engines, judged for C17's fill-fraction clause at the engine level: Engine.Reset gives the engine
+// an empty table, so a completed analysis after any number of earlier (completed or halted) analyses and
+// a Reset must report, iteration by iteration, the fill fraction the same analysis reports on a fresh
+// engine; and every reported fraction lies in [0,1].
+func SessionC17Engine(t *tape.Tape) *core.RunResult { return sessionEngines(t, true) }
+
+func sessionEngines(t *tape.Tape, fill bool) *core.RunResult {
 	res := core.NewResult()
 	k := NewKernel(t, res)
 	defer k.Uninstall()
@@ -95,6 +106,9 @@ func SessionC18(t *tape.Tape) *core.RunResult {
 	}
 	depth := t.Range(1, maxDepth)
 	predecessor := t.Chance(2, 3) // an earlier, completed analysis on the same engine
+	if fill {
+		noise, predecessor = 0, true
+	}
 	var g0 *rules.Game
 	predDepth := 1
 	if predecessor {
@@ -109,6 +123,9 @@ func SessionC18(t *tape.Tape) *core.RunResult {
 			predDepth = depth
 			res.Probe("predecessor-same-position-other-history")
 		}
+		if fill {
+			predDepth = t.Range(1, maxDepth)
+		}
 	}
 	seed0 := int64(t.Choose(1 << 16))
 	// Hash on in some runs: every analysis here starts with Engine.Reset, which is documented to give the
@@ -117,6 +134,9 @@ func SessionC18(t *tape.Tape) *core.RunResult {
 	if t.Chance(1, 3) {
 		hash = 1
 		res.Probe("hash-on-reset-before-each-analysis")
+	}
+	if fill {
+		hash = uint(1 + t.Choose(2))
 	}
 	opts := engine.Options{Depth: 0, Hash: hash, Noise: noise}
 	res.Tracef("wiring=%s noise=%d hash=%d depth=%d predecessor=%v game=%q", w, noise, hash, depth, predecessor, g.FEN())
@@ -134,7 +154,7 @@ func SessionC18(t *tape.Tape) *core.RunResult {
 			res.Violate("C18", "analyze-refused", steps, "%s: Analyze: %v", e.name, err)
 			return false
 		}
-		e.out, e.closed, e.pvs = out, false, nil
+		e.out, e.closed, e.pvs, e.fills = out, false, nil, nil
 		// let the new search goroutine reach its first park point alone, so that it is named replayably
 		k.Wait()
 		k.Parked()
@@ -238,19 +258,22 @@ func SessionC18(t *tape.Tape) *core.RunResult {
 	if !checkGame(solo, "after") {
 		return res
 	}
-	ref := solo.pvs
+	ref, refFills := solo.pvs, solo.fills
+	if fill && len(refFills) != len(ref) {
+		panic("one fill fraction per iteration")
+	}
 
 	// Phase 2: 2..3 engines side by side
 	n := t.Range(2, 3)
 	var es []*engSim
 	for i := 0; i < n; i++ {
 		seed := int64(t.Choose(1<<16)) + 7
-		if noise > 0 {
-			seed = seed0 // with noise on, the seed is part of the key: same seed, same stream
+		if noise > 0 || fill {
+			seed = seed0 // with noise on, the seed is part of the key: same seed, same stream (and which positions share a slot depends on it)
 		}
 		es = append(es, &engSim{name: fmt.Sprintf("engine%d(seed=%d)", i+1, seed), b: Build(ctx, k, w, opts, seed, 1)})
 	}
-	if noise == 0 {
+	if noise == 0 && !fill {
 		res.Probe("hash-seeds-differ")
 	}
 	if predecessor {
@@ -317,6 +340,36 @@ func SessionC18(t *tape.Tape) *core.RunResult {
 	if k.LockHeld() {
 		return finishBudget()
 	}
+	// differ reports a search result that is not the solo run's: C18's violation; in fill mode it only
+	// means the fill fractions are not comparable (and C18's own check reports it)
+	differ := func(kind, f string, a ...interface{}) {
+		if fill {
+			res.Inconclusive["search-results-differ"]++
+			return
+		}
+		res.Violate("C18", kind, steps, f, a...)
+	}
+	fillOK := func(e *engSim, what string, depthOf func(i int) int) bool {
+		if !fill {
+			return true
+		}
+		for i, f := range e.fills {
+			if f < 0 || f > 1 {
+				res.Violate("C17", "fill-fraction-out-of-range", steps, "%s: %s reported a fill fraction of %v", e.name, what, f)
+				return false
+			}
+			d := depthOf(i)
+			if d < 1 || d > len(refFills) {
+				continue
+			}
+			if f != refFills[d-1] {
+				res.Violate("C17", "fill-count-not-from-empty-table", steps, "%s (wiring %s, hash %d MB, game %q): %s reports a fill fraction of %v after depth %d; a fresh engine with the same Zobrist seed reports %v for the same analysis. Engine.Reset gives the engine an empty table, so slots of earlier analyses are being counted (or slots of this one are not)", e.name, w, hash, g.FEN(), what, f, d, refFills[d-1])
+				return false
+			}
+			res.Probe("fill-fraction-compared-with-fresh-engine")
+		}
+		return true
+	}
 	for _, e := range es {
 		if !checkGame(e, "after") {
 			return res
@@ -325,31 +378,39 @@ func SessionC18(t *tape.Tape) *core.RunResult {
 			// halted: a prefix of the solo run's iterations, and Halt's own result is one of them
 			hp := recOf(*haltPV)
 			all := append(append([]pvRec{}, e.pvs...), hp)
+			e.fills = append(e.fills, haltPV.Hash)
 			for _, r := range all {
 				if r.Depth < 1 || r.Depth > len(ref) {
 					if r.Depth == 0 {
 						continue
 					}
-					res.Violate("C18", "search-not-deterministic", steps, "%s: a halted analysis reported depth %d, beyond the limit %d", e.name, r.Depth, depth)
+					differ("search-not-deterministic", "%s: a halted analysis reported depth %d, beyond the limit %d", e.name, r.Depth, depth)
 					return res
 				}
 				if r != ref[r.Depth-1] {
-					res.Violate("C18", "search-not-deterministic", steps, "%s (wiring %s, noise %d, game %q): halted by a client, it reported for depth %d %+v; the solo run gave %+v", e.name, w, noise, g.FEN(), r.Depth, r, ref[r.Depth-1])
+					differ("search-not-deterministic", "%s (wiring %s, noise %d, game %q): halted by a client, it reported for depth %d %+v; the solo run gave %+v", e.name, w, noise, g.FEN(), r.Depth, r, ref[r.Depth-1])
 					return res
 				}
+			}
+			// (Halt's own PV is the last completed iteration's, fill fraction included)
+			if !fillOK(e, "a halted analysis after a Reset", func(i int) int { return all[i].Depth }) {
+				return res
 			}
 			res.Probe("halted-analysis-compared-with-solo")
 			continue
 		}
 		if len(e.pvs) != len(ref) {
-			res.Violate("C18", "search-not-deterministic", steps, "%s reported %d iterations, the solo run of the same wiring, game and depth %d", e.name, len(e.pvs), len(ref))
+			differ("search-not-deterministic", "%s reported %d iterations, the solo run of the same wiring, game and depth %d", e.name, len(e.pvs), len(ref))
 			return res
 		}
 		for i := range ref {
 			if e.pvs[i] != ref[i] {
-				res.Violate("C18", "search-not-deterministic", steps, "%s (wiring %s, noise %d, game %q): iteration %d is %+v, the solo run gave %+v", e.name, w, noise, g.FEN(), i+1, e.pvs[i], ref[i])
+				differ("search-not-deterministic", "%s (wiring %s, noise %d, game %q): iteration %d is %+v, the solo run gave %+v", e.name, w, noise, g.FEN(), i+1, e.pvs[i], ref[i])
 				return res
 			}
+		}
+		if !fillOK(e, "an analysis after an earlier one and a Reset", func(i int) int { return e.pvs[i].Depth }) {
+			return res
 		}
 	}
 	// the same analysis once more on the first engine (noise off: must repeat exactly)
@@ -367,9 +428,12 @@ func SessionC18(t *tape.Tape) *core.RunResult {
 		res.Probe("same-engine-searched-twice")
 		for i := range ref {
 			if i >= len(e.pvs) || e.pvs[i] != ref[i] {
-				res.Violate("C18", "search-not-repeatable", steps, "%s: repeating the analysis gives %+v, the first time %+v", e.name, e.pvs, ref)
+				differ("search-not-repeatable", "%s: repeating the analysis gives %+v, the first time %+v", e.name, e.pvs, ref)
 				return res
 			}
+		}
+		if !fillOK(e, "the analysis repeated after a Reset", func(i int) int { return e.pvs[i].Depth }) {
+			return res
 		}
 	}
 	k.Drain()
